@@ -240,3 +240,669 @@ def impl_merge(d, s):
     return [0, epv(hi.merge_tree(copy.deepcopy(d), copy.deepcopy(s)))]
   except Exception as e:
     return eerr(e)
+
+# ---- generators ------------------------------------------------------------------------------------
+INTS = list(range(-12, 13)) + [100, -100, 10 ** 12, -(10 ** 12), 255, 1000]
+PLAIN = ['a', 'b', '0', '7', '1', '-', 'é', '\U0001d4b3', ' ', "'", '"', '$', '²', '٣', '-1', '00', 'a b', '10', '15', '2', '-0', '٣5']
+
+def gen_str(rng, ok_only=False):
+  for _ in range(50):
+    r = rng.random()
+    if r < 0.30:
+      s = rng.choice(PLAIN)
+    elif r < 0.50:
+      inner = ''.join(rng.choice(ALPHABET) for _ in range(rng.randint(0, 3)))
+      s = rng.choice(['', 'a', '0', '-']) + '[' + inner + ']' + rng.choice(['', 'b', '.', '7'])
+    elif r < 0.60:
+      s = rng.choice(['.', '..', 'a.b', '.a', 'a.', '0.7', '-.', '[0]', '[-1]', '[a]', '[]', '[[]]', '[.]', 'a[0].b', '[²]'])
+    else:
+      s = ''.join(rng.choice(ALPHABET) for _ in range(rng.randint(0 if not ok_only else 1, 5)))
+    if not ok_only or key_ok(s):
+      return s
+  return 'a'
+
+def gen_key(rng, ok_only=False, p_int=0.35):
+  if rng.random() < p_int:
+    return rng.choice(INTS)
+  return gen_str(rng, ok_only or rng.random() < 0.85)
+
+def gen_path(rng, ok_only=False, maxlen=6):
+  n = rng.choice([0, 1, 1, 2, 2, 3, 3, 4, 5, maxlen])
+  return [gen_key(rng, ok_only) for _ in range(min(n, maxlen))]
+
+def gen_path_string(rng):
+  vl, _ = py()
+  r = rng.random()
+  if r < 0.35:
+    return vl.KeyPath(gen_path(rng)).path_str(rng.random() < 0.8)
+  if r < 0.70:
+    s = list(vl.KeyPath(gen_path(rng)).path)
+    for _ in range(rng.randint(1, 2)):
+      k = rng.randrange(3)
+      if k == 0 and s: del s[rng.randrange(len(s))]
+      elif k == 1: s.insert(rng.randint(0, len(s)), rng.choice(ALPHABET))
+      elif s: s[rng.randrange(len(s))] = rng.choice(ALPHABET)
+    return ''.join(s)
+  return ''.join(rng.choice(ALPHABET + ['[', ']', '.', '-', '0']) for _ in range(rng.randint(0, 10)))
+
+SET_KEYS = ['a', 'b', '$', 0, 1, 'a.b', '0', -1, 'x']
+def gen_set_ops(rng, allow_dollar=True):
+  keys = [k for k in SET_KEYS if allow_dollar or k != '$']
+  if rng.random() < 0.5:
+    keys = [k for k in keys if k != '$']     # half of the sequences never meet the marker
+  pool = [[rng.choice(keys) for _ in range(rng.choice([0, 1, 1, 2, 2, 3]))] for _ in range(rng.randint(3, 7))]
+  ops = []
+  n = rng.randint(3, 14)
+  for _ in range(n):
+    r, r2, r3 = rng.randrange(3), rng.randrange(3), rng.randrange(3)
+    p = rng.choice(pool)
+    x = rng.random()
+    if x < 0.30: code = 0
+    elif x < 0.40: code = 1
+    elif x < 0.48: code = 2
+    elif x < 0.52: code = 3
+    elif x < 0.57: code = 4
+    elif x < 0.58: code = 5
+    else: code = rng.choice([6, 7, 8, 9, 10, 11, 12, 13, 14, 15, 16, 17])
+    fl = 1 if (code == 0 and rng.random() < 0.2) else 0
+    if code == 4 or code == 17:
+      p = p[:2]
+    ops.append([code, r, r2, r3, list(p), fl])
+  return ops
+
+def gen_leaf(rng):
+  r = rng.random()
+  if r < 0.15: return None
+  if r < 0.55: return rng.choice([0, 1, 2, -3, 7, 42])
+  if r < 0.85: return rng.choice(['', 'a', 'abc', 'b', '0', 'a.b', '[0]', 'é'])
+  return rng.choice([[], {}])
+
+def gen_value(rng, depth, int_keys=0.15):
+  if depth <= 0 or rng.random() < 0.25:
+    return gen_leaf(rng)
+  if rng.random() < 0.45:
+    return [gen_value(rng, depth - 1, int_keys) for _ in range(rng.randint(1, 3))]
+  d = {}
+  r = rng.random()
+  if r < int_keys / 2:                      # a perfect-range int-keyed dict (canonicalize turns it into a list)
+    for i in rng.sample(range(3), rng.randint(1, 3)):
+      pass
+    n = rng.randint(1, 3)
+    order = list(range(n)); rng.shuffle(order)
+    for i in order: d[i] = gen_value(rng, depth - 1, int_keys)
+    return d
+  for _ in range(rng.randint(1, 3)):
+    k = gen_key(rng, ok_only=True, p_int=int_keys)
+    if isinstance(k, int) and abs(k) > 1000: k = 5
+    d[k] = gen_value(rng, depth - 1, int_keys)
+  return d
+
+def nodes_of(v, path=()):
+  """Independent enumeration of (path, node) in pre-order."""
+  out = [(list(path), v)]
+  if isinstance(v, dict):
+    for k, x in v.items(): out += nodes_of(x, path + (k,))
+  elif isinstance(v, list):
+    for i, x in enumerate(v): out += nodes_of(x, path + (i,))
+  return out
+
+def depth_of(v):
+  if isinstance(v, dict) and v: return 1 + max(depth_of(x) for x in v.values())
+  if isinstance(v, list) and v: return 1 + max(depth_of(x) for x in v)
+  return 0
+
+def gen_flat_dict(rng, depth=2):
+  """Input for canonicalize: dicts whose keys are path strings (valid, conflicting or malformed)."""
+  d = {}
+  base = rng.choice(['a', 'b', 'a.b', 'x'])
+  for _ in range(rng.randint(1, 4)):
+    r = rng.random()
+    if r < 0.5:
+      k = base + rng.choice(['', '.c', '[0]', '[1]', '[2]', '.c.d', '[0].e', '[-1]', '[5]', '[x.y]', '.0'])
+    elif r < 0.8:
+      k = gen_path_string(rng)
+    else:
+      k = rng.choice([0, 1, 2, -1, 5])
+    if depth > 0 and rng.random() < 0.3:
+      v = gen_flat_dict(rng, depth - 1)
+    elif rng.random() < 0.2:
+      v = [gen_leaf(rng), gen_flat_dict(rng, 0)] if depth > 0 else [gen_leaf(rng)]
+    else:
+      v = gen_leaf(rng)
+    d[k] = v
+  return d
+
+def has_perfect_int_dict(v):
+  if isinstance(v, dict):
+    if v and all(isinstance(k, int) for k in v) and sorted(v) == list(range(len(v))): return True
+    return any(has_perfect_int_dict(x) for x in v.values())
+  if isinstance(v, list):
+    return any(has_perfect_int_dict(x) for x in v)
+  return False
+
+def keys_all_ok(v):
+  if isinstance(v, dict):
+    return all(key_ok(k) and keys_all_ok(x) for k, x in v.items())
+  if isinstance(v, list):
+    return all(keys_all_ok(x) for x in v)
+  return True
+
+def dpv(t):
+  k = t[0]
+  if k == 0: return None
+  if k == 1: return t[1]
+  if k == 2: return ''.join(chr(c) for c in t[1])
+  if k == 3: return [dpv(x) for x in t[1]]
+  if k == 4: return {dkey(kv[0]): dpv(kv[1]) for kv in t[1]}
+  raise ValueError(t)
+
+# ---- the direct oracle: the property text on the real objects ------------------------------------------
+def key_kind(k):
+  if isinstance(k, int): return 'int-key'
+  if any(c in k for c in '.[]'): return 'delimiter-str-key'
+  if k.lstrip('-').isdigit(): return 'digit-str-key'
+  return 'plain-str-key'
+
+def oracle_roundtrip(keys):
+  """KeyPath.parse(str(p)) == p for key_ok keys."""
+  vl, _ = py()
+  hits = []
+  if not all(key_ok(k) for k in keys): return hits
+  p = vl.KeyPath(list(keys))
+  try:
+    q = vl.KeyPath.parse(str(p))
+    ok = same_keys(q.keys, keys) and q == p
+    got = q.keys
+  except Exception as e:
+    ok = False; got = '%s: %s' % (type(e).__name__, e)
+  if not ok:
+    # discriminator: the kind of the first key at which the round trip diverges
+    i = 0
+    if isinstance(got, list):
+      while i < min(len(got), len(keys)) and type(got[i]) is type(keys[i]) and got[i] == keys[i]: i += 1
+    kind = key_kind(keys[min(i, len(keys) - 1)]) if keys else 'empty'
+    hits.append(('C10/roundtrip/parse-format/' + kind, 'KeyPath.parse(str(KeyPath(%r))) gives %r' % (keys, got), dict(kind='roundtrip', keys=keys)))
+  return hits
+
+def oracle_arith(p, q):
+  vl, _ = py()
+  K = vl.KeyPath
+  hits = []
+  def bad(law, msg): hits.append(('C10/arith/' + law, msg, dict(kind='arith', p=p, q=q)))
+  try:
+    P, Q = K(list(p)), K(list(q))
+    s = P + Q
+    if not same_keys(s.keys, list(p) + list(q)): bad('concat-keys', '(%r + %r).keys = %r' % (p, q, s.keys))
+    if len(s) != len(p) + len(q): bad('concat-depth', 'depth')
+    d = s - P
+    if not same_keys(d.keys, q): bad('sub-after-add', '(p + q) - p = %r for p=%r q=%r' % (d.keys, p, q))
+    if not s.is_relative_to(P): bad('relative-after-add', '(p + q).is_relative_to(p) is False for p=%r q=%r' % (p, q))
+    if not same_keys((P - P).keys, []): bad('sub-self', 'p - p != root')
+    pref = len(q) <= len(p) and same_keys(p[:len(q)], q)
+    if P.is_relative_to(Q) != pref: bad('is-relative-to', '%r.is_relative_to(%r) = %r' % (p, q, P.is_relative_to(Q)))
+    try:
+      r = P - Q; sub_ok = True
+    except ValueError:
+      sub_ok = False
+    if sub_ok != pref: bad('sub-defined-iff-prefix', '%r - %r %s' % (p, q, 'succeeds' if sub_ok else 'raises'))
+    if sub_ok and not same_keys((Q + r).keys, p): bad('add-after-sub', 'q + (p - q) != p')
+    if p:
+      if not same_keys(P.parent.keys, p[:-1]): bad('parent', 'parent of %r is %r' % (p, P.parent.keys))
+      if not (type(P.key) is type(p[-1]) and P.key == p[-1]): bad('key', 'key')
+      if not same_keys((P.parent + K([P.key])).keys, p): bad('parent-plus-key', 'parent + key != p')
+    else:
+      try:
+        P.parent; bad('parent-of-root', 'parent of root does not raise')
+      except KeyError:
+        pass
+    if (P == Q) != same_keys(p, q): bad('eq', '%r == %r is %r' % (p, q, P == Q))
+    if all(key_ok(k) for k in p) and all(key_ok(k) for k in q):
+      if (str(P) == str(Q)) != same_keys(p, q): bad('format-injective', 'str(%r) == str(%r) = %r' % (p, q, str(P)))
+      if same_keys(p, q) and hash(P) != hash(Q): bad('hash', 'hash')
+  except Exception as e:
+    bad('raises-' + type(e).__name__, 'arithmetic on %r, %r raised %s: %s' % (p, q, type(e).__name__, e))
+  return hits
+
+def pair_kind(a, b):
+  """What kind of keys meet at the first position where two paths differ."""
+  for x, y in zip(a, b):
+    if not (type(x) is type(y) and x == y):
+      ks = sorted([key_kind(x), key_kind(y)])
+      return ks[0] + '-vs-' + ks[1]
+  return 'prefix'
+
+def oracle_order(a, b, c):
+  vl, _ = py()
+  K = vl.KeyPath
+  hits = []
+  def bad(law, kind, msg): hits.append(('C10/order/%s/%s' % (law, kind), msg, dict(kind='order', a=a, b=b, c=c)))
+  try:
+    A, B, C = K(list(a)), K(list(b)), K(list(c))
+    if A < A or A > A or not (A <= A) or not (A >= A): bad('reflexivity', 'self', 'p < p or not p <= p for %r' % (a,))
+    for (x, X), (y, Y) in (((a, A), (b, B)), ((b, B), (c, C)), ((a, A), (c, C))):
+      k = pair_kind(x, y)
+      lt, gt, le, ge = X < Y, X > Y, X <= Y, X >= Y
+      if lt and (Y < X): bad('asymmetric', k, '%r < %r and %r < %r' % (x, y, y, x))
+      if gt != (Y < X) or ge != (Y <= X): bad('converse', k, '> / >= are not the converses of < / <= on %r, %r' % (x, y))
+      if le != (lt or not (Y < X)) or (le and ge and not same_keys(x, y)):
+        bad('le-consistent', k, '%r <= %r is %r, >= is %r, < is %r, == is %r' % (x, y, le, ge, lt, X == Y))
+      if not same_keys(x, y) and not lt and not (Y < X): bad('total', k, 'neither %r < %r nor the converse although the key sequences differ' % (x, y))
+      if same_keys(x, y) and (lt or gt): bad('irreflexive', k, 'equal key sequences compare <')
+      # consistent with the key sequences
+      if len(x) < len(y) and same_keys(y[:len(x)], x) and not lt: bad('prefix-first', k, 'a proper prefix %r is not < %r' % (x, y))
+      for u, v in zip(x, y):
+        if type(u) is type(v) and u == v: continue
+        if isinstance(u, int) and isinstance(v, int) and lt != (u < v): bad('ints-numeric', k, '%r vs %r' % (x, y))
+        if isinstance(u, str) and isinstance(v, str) and lt != (u < v): bad('strs-by-code-point', k, '%r vs %r' % (x, y))
+        break
+    if A < B and B < C and not A < C:
+      bad('transitive', '+'.join(sorted({pair_kind(a, b), pair_kind(b, c), pair_kind(a, c)})), 'KeyPath(%r) < KeyPath(%r) < KeyPath(%r) but not KeyPath(%r) < KeyPath(%r)' % (a, b, c, a, c))
+    if A < B and B < C and C < A:
+      bad('cycle', '+'.join(sorted({pair_kind(a, b), pair_kind(b, c), pair_kind(a, c)})), 'KeyPath(%r) < KeyPath(%r) < KeyPath(%r) < KeyPath(%r)' % (a, b, c, a))
+  except Exception as e:
+    bad('raises-' + type(e).__name__, 'any', 'comparison raised %s' % e)
+  return hits
+
+def container_kind(x):
+  return 'dict' if isinstance(x, dict) else 'list' if isinstance(x, list) else type(x).__name__
+
+def oracle_value(v, sym=False):
+  """Traversal / lookup / query / flatten clauses on one nested value (plain containers; sym: converted to pg.Dict/pg.List)."""
+  import pyglove as pg
+  vl, hi = py()
+  hits = []
+  vt = epv(plain(v))
+  def bad(sig, msg): hits.append((sig + ('/symbolic' if sym else ''), msg, dict(kind='value', value_tr=vt, sym=sym, shown=repr(plain(v))[:300])))
+  expect = nodes_of(v)
+  # utils.traverse visits every node exactly once, in pre- and post-order
+  for name, fn in (('utils.traverse', None), ('pg.traverse', None)):
+    pre_log, post_log = [], []
+    try:
+      if name == 'utils.traverse':
+        ok = hi.traverse(v, lambda p, x: pre_log.append((p, x)) or True, lambda p, x: post_log.append((p, x)) or True)
+      else:
+        ok = pg.traverse(v, lambda p, x, par: pre_log.append((p, x, par)) or pg.TraverseAction.ENTER,
+                         lambda p, x, par: post_log.append((p, x, par)) or pg.TraverseAction.ENTER)
+    except Exception as e:
+      bad('C10/traverse/raises/' + name, '%s raised %s: %s' % (name, type(e).__name__, e)); continue
+    if not ok: bad('C10/traverse/returns-false/' + name, 'all visitors returned true but traverse returned False')
+    paths = [tuple(ekey_h(k) for k in e[0].keys) for e in pre_log]
+    if len(set(paths)) != len(paths): bad('C10/traverse/visits-twice/' + name, 'a path is reported twice')
+    if len(pre_log) != len(expect) or any(not same_keys(e[0].keys, x[0]) or e[1] is not x[1] for e, x in zip(pre_log, expect)):
+      bad('C10/traverse/not-every-node-once/' + name, '%d nodes, %d pre-order visits' % (len(expect), len(pre_log)))
+    if sorted(map(repr, [e[0].keys for e in post_log])) != sorted(map(repr, [x[0] for x in expect])) or len(post_log) != len(expect):
+      bad('C10/traverse/post-order-incomplete/' + name, '%d nodes, %d post-order visits' % (len(expect), len(post_log)))
+    # the reported path, looked up from the root, returns that node
+    for e in pre_log:
+      p, x = e[0], e[1]
+      try:
+        got = p.query(v)
+        if got is not x: bad('C10/lookup/reported-path-returns-other-node/' + name, 'path %r' % (p.keys,))
+      except Exception as ex:
+        par = vl.KeyPath(p.keys[:-1]).get(v) if p.keys else None
+        bad('C10/lookup/reported-path-not-found/%s-%s' % (container_kind(plain(par)) if not sym else 'sym', key_kind(p.keys[-1]) if p.keys else 'root'),
+            'traverse reports path %r for a node, but KeyPath(%r).query(root) raises %s: %s' % (p.keys, p.keys, type(ex).__name__, str(ex)[:80]))
+        break
+      if name == 'pg.traverse' and p.keys:
+        if e[2] is not vl.KeyPath(p.keys[:-1]).get(v): bad('C10/traverse/parent-argument/' + name, 'parent passed to the visitor is not the container at the parent path')
+  # pg.query: selecting everything and entering returns every node under its printed path
+  if keys_all_ok(plain(v)):
+    try:
+      res = pg.query(v, custom_selector=lambda k, x: True, enter_selected=True)
+      if len(res) != len(expect): bad('C10/query/select-all-count', '%d nodes, %d results' % (len(expect), len(res)))
+      for (ks, x) in expect:
+        s = str(vl.KeyPath(list(ks)))
+        if s not in res or res[s] is not x: bad('C10/query/select-all-misses-node', 'node at %r' % (ks,)); break
+        if vl.KeyPath.parse(s).get(v, default_value=hits) is not x: bad('C10/query/printed-path-does-not-address-node', 'printed path %r' % s); break
+      ints = pg.query(v, custom_selector=lambda k, x: isinstance(x, int) and not isinstance(x, bool))
+      exp_ints = [str(vl.KeyPath(list(ks))) for ks, x in expect if isinstance(x, int) and not isinstance(x, bool)]
+      if list(ints) != exp_ints: bad('C10/query/selector-result', 'selected %r expected %r' % (list(ints), exp_ints))
+    except Exception as e:
+      bad('C10/query/raises-' + type(e).__name__, 'pg.query raised %s' % e)
+  # flatten / canonicalize are inverse (plain values; keys_all_ok; no perfect-range int-keyed dict, which is documented to become a list)
+  if not sym and keys_all_ok(v) and not has_perfect_int_dict(v):
+    try:
+      flat = hi.flatten(copy.deepcopy(v), False)
+      back = hi.canonicalize(copy.deepcopy(flat))
+      if back != v or repr(type_shape(back)) != repr(type_shape(v)):
+        bad('C10/flatten-canonicalize/not-inverse/' + flat_disc(v), 'canonicalize(flatten(v, False)) = %r for v = %r' % (back, v))
+      if isinstance(v, (dict, list)) and v:
+        leaves = [(ks, x) for ks, x in expect if ks and not (isinstance(x, (dict, list)) and x)]
+        want = {vl.KeyPath(list(ks)).path: x for ks, x in leaves}
+        if flat != want or list(flat) != list(want): bad('C10/flatten/keys-are-leaf-paths', 'flatten gives %r' % (flat,))
+    except Exception as e:
+      bad('C10/flatten-canonicalize/raises-%s/%s' % (type(e).__name__, flat_disc(v)), 'canonicalize(flatten(v, False)) raised %s: %s for v = %r' % (type(e).__name__, e, v))
+  return hits
+
+def ekey_h(k): return ('i', k) if isinstance(k, int) else ('s', k)
+
+def type_shape(v):
+  if isinstance(v, dict): return ('d', sorted((repr(ekey_h(k)), type_shape(x)) for k, x in v.items()))
+  if isinstance(v, list): return ('l', [type_shape(x) for x in v])
+  return (type(v).__name__, v)
+
+def flat_disc(v):
+  ks = set()
+  def walk(x):
+    if isinstance(x, dict):
+      for k, y in x.items(): ks.add(key_kind(k)); walk(y)
+    elif isinstance(x, list):
+      ks.add('list')
+      for y in x: walk(y)
+  walk(v)
+  return '+'.join(sorted(ks)) or 'leaf'
+
+def to_sym(v):
+  import pyglove as pg
+  if isinstance(v, dict): return pg.Dict(v)
+  if isinstance(v, list): return pg.List(v)
+  return v
+
+OPN = ['add', 'remove', 'contains', 'has_prefix', 'rebase', 'clear', 'update', 'difference_update', 'intersection_update',
+       'union', 'difference', 'intersection', 'copy', 'eq', 'bool', 'iter', 'subtree', 'keypath_add']
+
+def _set_run(ops):
+  """Runs the op sequence on real KeyPathSets next to Python sets of key tuples. Returns None or (opname, law, message)."""
+  vl, _ = py()
+  K = vl.KeyPath
+  regs = [vl.KeyPathSet(), vl.KeyPathSet(), vl.KeyPathSet()]
+  ref = [set(), set(), set()]
+  T = lambda keys: tuple(ekey_h(k) for k in keys)
+  def state(r):
+    lst = [T(x.keys) for x in regs[r]]
+    if len(set(lst)) != len(lst): return 'iteration yields a path twice'
+    if set(lst) != ref[r]: return 'members are %r, a set would hold %r' % (sorted(set(lst), key=repr), sorted(ref[r], key=repr))
+    if bool(regs[r]) != bool(ref[r]): return 'bool() is %r but there are %d members' % (bool(regs[r]), len(ref[r]))
+    for m in ref[r]:
+      if K([k for _, k in m]) not in regs[r]: return 'a listed member is not `in` the set'
+    return None
+  for i, (code, r, r2, r3, p, fl) in enumerate(ops):
+    name = OPN[code]
+    tp = T(p)
+    try:
+      P = K(list(p))
+      touched = [r]
+      if code == 0:
+        u = regs[r].add(P, include_intermediate=bool(fl))
+        if not fl:
+          if bool(u) != (tp not in ref[r]): return (name, 'return-value', 'add returned %r' % u)
+          ref[r] = ref[r] | {tp}
+        else:
+          now = {T(x.keys) for x in regs[r]}
+          prefixes = {tp[:j] for j in range(len(tp) + 1)}
+          closed = all(m[:j] in ref[r] for m in ref[r] for j in range(len(m)))
+          if not (ref[r] | {tp}) <= now or not now <= (ref[r] | prefixes) or (closed and now != ref[r] | prefixes):
+            return (name, 'include-intermediate', 'after add(%r, include_intermediate=True): %r' % (p, sorted(now, key=repr)))
+          ref[r] = now
+      elif code == 1:
+        u = regs[r].remove(P)
+        if bool(u) != (tp in ref[r]): return (name, 'return-value', 'remove returned %r' % u)
+        ref[r] = ref[r] - {tp}
+      elif code == 2:
+        if (P in regs[r]) != (tp in ref[r]): return (name, 'membership', '%r in set is %r' % (p, P in regs[r]))
+      elif code == 3:
+        if p or ref[r]:
+          if bool(regs[r].has_prefix(P)) != any(m[:len(tp)] == tp for m in ref[r]): return (name, 'prefix', 'has_prefix(%r)' % (p,))
+      elif code == 4: regs[r].rebase(P); ref[r] = {tp + m for m in ref[r]}
+      elif code == 5: regs[r].clear(); ref[r] = set()
+      elif code == 6: regs[r].update(regs[r2]); ref[r] = ref[r] | ref[r2]
+      elif code == 7: regs[r].difference_update(regs[r2]); ref[r] = ref[r] - ref[r2]
+      elif code == 8: regs[r].intersection_update(regs[r2]); ref[r] = ref[r] & ref[r2]
+      elif code == 9: regs[r3] = regs[r].union(regs[r2]); ref[r3] = ref[r] | ref[r2]; touched = [r, r2, r3]
+      elif code == 10: regs[r3] = regs[r].difference(regs[r2]); ref[r3] = ref[r] - ref[r2]; touched = [r, r2, r3]
+      elif code == 11: regs[r3] = regs[r].intersection(regs[r2]); ref[r3] = ref[r] & ref[r2]; touched = [r, r2, r3]
+      elif code == 12: regs[r3] = regs[r].copy(); ref[r3] = set(ref[r]); touched = [r, r3]
+      elif code == 13:
+        if (regs[r] == regs[r2]) != (ref[r] == ref[r2]) or (regs[r] != regs[r2]) != (ref[r] != ref[r2]):
+          return (name, 'equality', '== is %r but the member sets are %s' % (regs[r] == regs[r2], 'equal' if ref[r] == ref[r2] else 'different'))
+      elif code == 14: pass
+      elif code == 15: pass
+      elif code == 16:
+        st = regs[r].subtree(P)
+        exp = {m[len(tp):] for m in ref[r] if m[:len(tp)] == tp}
+        if st is None:
+          if exp: return (name, 'subtree', 'subtree(%r) is None' % (p,))
+        else:
+          got = {T(x.keys) for x in st}
+          if got != exp: return (name, 'subtree', 'subtree(%r) = %r' % (p, sorted(got, key=repr)))
+      elif code == 17: regs[r3] = P + regs[r]; ref[r3] = {tp + m for m in ref[r]}; touched = [r, r3]
+      for t in touched + ([r2] if code in (6, 7, 8) else []):
+        s = state(t)
+        if s: return (name, 'set-semantics', 'after op %d %s%r: %s' % (i, name, tuple(p) if code in (0, 1, 4, 17) else (), s))
+    except Exception as e:
+      return (name, 'raises-' + type(e).__name__, 'op %d %s raised %s: %s' % (i, name, type(e).__name__, str(e)[:80]))
+  return None
+
+def oracle_set(ops):
+  bad = _set_run(ops)
+  if bad is None: return []
+  name, law, msg = bad
+  has_dollar = any('$' in op[4] for op in ops)
+  if has_dollar:
+    sub = [[c, r, r2, r3, ['€' if k == '$' else k for k in p], fl] for c, r, r2, r3, p, fl in ops]
+    if _set_run(sub) is None:
+      return [('C10/set/dollar-key-is-the-terminal-marker', "a path key '$' is taken for the trie's end-of-path marker: " + msg, dict(kind='set', ops=ops))]
+  return [('C10/set/%s/%s' % (name, law), msg, dict(kind='set', ops=ops))]
+
+DOLLAR_WITNESS = [[0, 0, 0, 0, ['$'], 0], [15, 0, 0, 0, [], 0]]
+
+def detect_dollar_quirk():
+  """Quirk flag of the model: replay the witness of the open finding on the implementation."""
+  return bool(oracle_set(DOLLAR_WITNESS))
+
+def check_digit_table(ctx):
+  dec, dig = [], []
+  for cp in range(0x110000):
+    c = chr(cp)
+    if c.isdigit():
+      if unicodedata.decimal(c, None) is not None:
+        if unicodedata.decimal(c) == 0: dec.append(cp)
+      else:
+        dig.append(cp)
+  rs = []
+  for cp in dig:
+    if rs and rs[-1][1] == cp - 1: rs[-1][1] = cp
+    else: rs.append([cp, cp])
+  import re
+  from harness.lib.common import COQ
+  txt = open(os.path.join(COQ, 'Model', 'KeyPathDigits.v')).read()
+  body = txt.split('Definition dec_starts', 1)[1]
+  a, b = body.split('Definition digit_only', 1)
+  coq_dec = [int(x) for x in re.findall(r'\d+', a.split(':=', 1)[1])]
+  coq_dig = [[int(x), int(y)] for x, y in re.findall(r'\((\d+),\s*(\d+)\)', b)]
+  # every decimal run must be 10 long with int() agreeing
+  ok = coq_dec == dec and coq_dig == rs and all(int(chr(s + i)) == i for s in dec for i in range(10))
+  if not ok:
+    ctx.broken.append(dict(kind='instance', name='unicode_digit_table', detail='Model/KeyPathDigits.v differs from str.isdigit/int of this interpreter (unicode %s)' % unicodedata.unidata_version))
+  ctx.extra['unicode_digit_table'] = dict(unicode=unicodedata.unidata_version, decimal_runs=len(dec), digit_only_ranges=len(rs), agrees=ok)
+  return ok
+
+# ---- corpus: minimised cases kept from earlier failures (always run first) ---------------------------------
+CORPUS_ORDER = [([2], [10], ['15']), ([0], ['0'], [1]), (['a', 1], ['a', 'b'], ['a', 10]), ([10], ['9'], [9])]
+CORPUS_VALUES = [{1: 'a'}, {5: {7: 'x'}}, {'a': {3: [1, {2: 'y'}]}}, {'a': [{'c': [1, 2]}, {'d': {'g': 3}}], 'b.c': 'foo', '[0]': {}, '0': []},
+                 {'$': {'x.y': [[], {}]}}, [[1, 2], [3]], {'a': {'0': 1, '-1': 2}}, {-1: 'a', 'k': 0}]
+CORPUS_SETS = [DOLLAR_WITNESS,
+               [[4, 0, 0, 0, ['a'], 0], [14, 0, 0, 0, [], 0], [13, 0, 1, 0, [], 0]],
+               [[0, 0, 0, 0, [], 0], [0, 0, 0, 0, ['$', 'x'], 0]],
+               [[0, 0, 0, 0, ['a', 'b'], 0], [0, 0, 0, 0, ['a'], 0], [1, 0, 0, 0, ['a', 'b'], 0], [15, 0, 0, 0, [], 0], [1, 0, 0, 0, ['a'], 0], [14, 0, 0, 0, [], 0]],
+               [[0, 0, 0, 0, ['a', 'b'], 1], [0, 1, 0, 0, ['a'], 0], [7, 0, 1, 0, [], 0], [8, 0, 1, 0, [], 0], [15, 0, 0, 0, [], 0]]]
+
+def nontrivial_keys(keys):
+  return any((isinstance(k, int) and (k < 0 or k > 9)) or (isinstance(k, str) and (not k.isascii() or any(c in k for c in '.[]-0123456789'))) for k in keys)
+
+def run(ctx):
+  vl, hi = py()
+  K = vl.KeyPath
+  tab_ok = check_digit_table(ctx)
+  ctx.build()
+  if not tab_ok and ctx.discharged:
+    ctx.discharged -= 1
+  dollar = detect_dollar_quirk()
+  ctx.extra['quirk_flags'] = dict(q_dollar=dollar)
+  ctx.log('quirk flags from witness replay: q_dollar=%s' % dollar)
+  rng = ctx.rng
+  trees, impls, descrs = [], [], []
+  sampled = set()
+  def add(tree, out, kind, nontrivial, descr):
+    trees.append(tree); impls.append(out); descrs.append(descr)
+    smp = None
+    if nontrivial and kind not in sampled and kind in ('roundtrip', 'parse', 'set', 'canonicalize(flatten)', 'pg.query', 'arith') and rng.random() < 0.05:
+      sampled.add(kind); smp = dict(descr, implementation=trlib.to_line(out))
+    ctx.count(trlib.to_line(tree), nontrivial=nontrivial, kind=kind, sample=smp)
+  oracle_jobs = []    # (fn, args)
+
+  # (A) format / round trip on key lists
+  paths = [list(a) for tr3 in CORPUS_ORDER for a in tr3]
+  n = ctx.scale(1500, 25000)
+  while len(paths) < n:
+    paths.append(gen_path(rng))
+  seen_fmt = {}
+  for p in paths:
+    ok = all(key_ok(k) for k in p)
+    for k in p: ctx.hist('key_kinds', key_kind(k) + ('' if key_ok(k) else ' (not key_ok)'))
+    ctx.hist('path_lengths', len(p))
+    preserve = 1 if rng.random() < 0.8 else 0
+    add([0, preserve, epath(p)], [0, estr(K(list(p)).path_str(bool(preserve)))], 'format', nontrivial_keys(p), dict(op='path_str', keys=p, preserve_complex_keys=bool(preserve)))
+    add([2, epath(p)], impl_parse(K(list(p)).path), 'roundtrip', nontrivial_keys(p), dict(op='parse(str(p))', keys=p, key_ok=ok))
+    oracle_jobs.append((oracle_roundtrip, (p,)))
+    if ok:
+      s = K(list(p)).path
+      if s in seen_fmt and not same_keys(seen_fmt[s], p):
+        ctx.hit('C10/injective/format', 'two different key lists print the same: %r and %r -> %r' % (seen_fmt[s], p, s), dict(kind='arith', p=seen_fmt[s], q=p))
+      seen_fmt[s] = p
+  # (B) parse on arbitrary strings
+  for _ in range(ctx.scale(1500, 25000)):
+    s = gen_path_string(rng)
+    out = impl_parse(s)
+    ctx.hist('parse_outcomes', ['keys', 'error:close', 'error:open', 'error:int'][0 if out[0] == 0 else 1 + out[1]] if out[0] == 0 or out[1] < 3 else 'other')
+    add([1, estr(s)], out, 'parse', out[0] == 1 or any(c in s for c in '[]'), dict(op='parse', string=s))
+  # (C) arithmetic / comparison on pairs, ordering laws on triples
+  triples = [tuple(list(x) for x in t) for t in CORPUS_ORDER]
+  for _ in range(ctx.scale(500, 8000)):
+    a = gen_path(rng, maxlen=3)
+    r = rng.random()
+    b = a + gen_path(rng, maxlen=2) if r < 0.3 else a[:rng.randint(0, len(a))] + gen_path(rng, maxlen=2) if r < 0.6 else gen_path(rng, maxlen=3)
+    c = gen_path(rng, maxlen=3) if rng.random() < 0.5 else b[:rng.randint(0, len(b))] + gen_path(rng, maxlen=1)
+    triples.append((a, b, c))
+  for a, b, c in triples:
+    for (p, q) in ((a, b), (b, c), (c, a)):
+      for op in range(12):
+        add([3, op, epath(p), epath(q)], impl_arith(op, p, q), 'arith', nontrivial_keys(p + q) or op in (1, 4, 5, 6, 7), dict(op='arith', code=op, p=p, q=q))
+      oracle_jobs.append((oracle_arith, (p, q)))
+    ctx.hist('order_pair_kinds', pair_kind(a, b))
+    oracle_jobs.append((oracle_order, (a, b, c)))
+  # (D) KeyPathSet op sequences
+  seqs = [s for s in CORPUS_SETS]
+  for _ in range(ctx.scale(700, 12000)):
+    seqs.append(gen_set_ops(rng))
+  for ops in seqs:
+    out, _ = impl_set(ops)
+    for o in ops: ctx.hist('set_ops', OPN[o[0]])
+    ctx.hist('set_outcome', 'raises' if (out[0] and out[0][-1] == [-2]) else 'ok')
+    add([5, int(dollar), [[c, r, r2, r3, epath(p), fl] for c, r, r2, r3, p, fl in ops]], out, 'set', len(ops) >= 3, dict(op='KeyPathSet ops', ops=ops))
+    oracle_jobs.append((oracle_set, (ops,)))
+  # (E) nested values: lookup, traverse, pg.traverse, pg.query, flatten, canonicalize
+  values = list(CORPUS_VALUES)
+  for _ in range(ctx.scale(350, 6000)):
+    values.append(gen_value(rng, rng.choice([1, 2, 2, 3, 3, 4]), int_keys=rng.choice([0.0, 0.15, 0.4])))
+  for v in values:
+    nt = depth_of(v) >= 2
+    ctx.hist('value_depth', depth_of(v))
+    nodes = nodes_of(v)
+    ctx.hist('value_nodes', min(len(nodes), 20))
+    vt = epv(v)
+    # lookup: a real node path, and a perturbed one
+    for _ in range(2):
+      p = list(rng.choice(nodes)[0])
+      if rng.random() < 0.5:
+        m = rng.random()
+        if m < 0.4 and p: p[rng.randrange(len(p))] = gen_key(rng, p_int=0.5)
+        elif m < 0.7: p = p + [gen_key(rng, p_int=0.5)]
+        elif p and isinstance(p[-1], int): p[-1] = rng.choice([-1, -2, -5, 3, p[-1] + 1])
+        else: p = p + [rng.choice([0, -1, 'a'])]
+      out = impl_lookup(p, v)
+      ctx.hist('lookup_outcomes', 'value' if out[0] == 0 else ['KeyError', 'ValueError', 'IndexError', 'TypeError'][out[1]] if out[1] < 4 else 'other')
+      add([20, epath(p), vt], out, 'lookup', nt or out[0] == 1, dict(op='query', path=p, value=repr(v)[:200]))
+    root = gen_path(rng, maxlen=2) if rng.random() < 0.3 else []
+    sp = root + list(rng.choice(nodes)[0]) if rng.random() < 0.4 else None
+    so = root + list(rng.choice(nodes)[0]) if rng.random() < 0.3 else None
+    add([21, vt, epath(root), trlib.opt(sp, epath), trlib.opt(so, epath)], impl_traverse(v, root, sp, so), 'traverse', nt,
+        dict(op='utils.traverse', value=repr(v)[:200], root=root, stop_pre=sp, stop_post=so))
+    pa = [(list(rng.choice(nodes)[0]), rng.randrange(3)) for _ in range(rng.randint(0, 3))]
+    pb = [(list(rng.choice(nodes)[0]), rng.randrange(3)) for _ in range(rng.randint(0, 2))]
+    eacts = lambda acts: [[epath(p), a] for p, a in acts]
+    out_plain = impl_pg_traverse(v, pa, pb)
+    add([22, vt, eacts(pa), eacts(pb)], out_plain, 'pg.traverse', nt, dict(op='pg.traverse', value=repr(v)[:200], pre_actions=pa, post_actions=pb))
+    sel = rng.choice([(0, [list(rng.choice(nodes)[0]) for _ in range(rng.randint(1, 3))]), (1,), (2,), (3,), (4,)])
+    es = rng.randrange(2)
+    add([23, vt, esel(sel), es], impl_pg_query(v, sel, es), 'pg.query', nt, dict(op='pg.query', value=repr(v)[:200], selector=sel, enter_selected=bool(es)))
+    # the same through pg.Dict / pg.List: must produce the same log and results
+    try:
+      sv = to_sym(copy.deepcopy(v))
+      if plain(sv) != v: raise ValueError('conversion changed the value')
+    except Exception as e:     # pg.Dict / pg.List construction is another property's business (C01/C02); counted, not judged here
+      sv = None
+      ctx.hist('symbolic_conversion', 'failed: %s' % type(e).__name__)
+    if sv is not None:
+      ctx.hist('symbolic_conversion', 'ok')
+      add([22, vt, eacts(pa), eacts(pb)], impl_pg_traverse(sv, pa, pb), 'pg.traverse(symbolic)', nt, dict(op='pg.traverse on pg.Dict/pg.List', value=repr(v)[:200], pre_actions=pa, post_actions=pb))
+      add([23, vt, esel(sel), es], impl_pg_query(sv, sel, es), 'pg.query(symbolic)', nt, dict(op='pg.query on pg.Dict/pg.List', value=repr(v)[:200], selector=sel, enter_selected=bool(es)))
+    fck = 1 if rng.random() < 0.3 else 0
+    add([24, fck, vt], impl_flatten(fck, v), 'flatten', nt, dict(op='flatten', flatten_complex_keys=bool(fck), value=repr(v)[:200]))
+    sparse = 1 if rng.random() < 0.8 else 0
+    add([26, 0, sparse, vt], impl_canon_flatten(0, sparse, v), 'canonicalize(flatten)', nt, dict(op='canonicalize(flatten(v, False))', sparse_list_as_dict=bool(sparse), value=repr(v)[:200]))
+    oracle_jobs.append((oracle_value, (v, False)))
+    if sv is not None: oracle_jobs.append((oracle_value, (sv, True)))
+  # (F) canonicalize on path-keyed dicts (valid, conflicting, malformed), merge_tree
+  for _ in range(ctx.scale(500, 8000)):
+    d = gen_flat_dict(rng)
+    sparse = 1 if rng.random() < 0.7 else 0
+    out = impl_canon(sparse, d)
+    ctx.hist('canonicalize_outcomes', 'value' if out[0] == 0 else ['KeyError', 'ValueError', 'IndexError', 'TypeError'][out[1]] if out[1] < 4 else 'other')
+    add([25, sparse, epv(d)], out, 'canonicalize', True, dict(op='canonicalize', sparse_list_as_dict=bool(sparse), value=repr(d)[:200]))
+  for _ in range(ctx.scale(200, 3000)):
+    a, b = gen_value(rng, 3, 0.3), gen_value(rng, 3, 0.3)
+    add([27, 0, epv(a), epv(b)], impl_merge(a, b), 'merge_tree', depth_of(a) >= 1 and depth_of(b) >= 1, dict(op='merge_tree', dest=repr(a)[:150], src=repr(b)[:150]))
+
+  model_outs = ctx.model_run(trees)
+  lookup = {id(t): d for t, d in zip(trees, descrs)}
+  ctx.compare('Hier.run / KeyPath.run vs value_location.py, hierarchical.py, pg.traverse, pg.query', trees, impls, model_outs, describe=lambda c: lookup.get(id(c)))
+  # direct oracle on every case
+  n_or = 0
+  for fn, args in oracle_jobs:
+    n_or += 1
+    for sig, what, case in fn(*args):
+      ctx.hit(sig, what, case)
+  ctx.extra['oracle_evaluations'] = n_or
+  # targeted search when something no longer checks and nothing failed yet
+  if ctx.is_broken() and not ctx.hits:
+    ctx.log('searching for a failing input ...')
+    for _ in range(ctx.scale(4000, 20000)):
+      p = gen_path(rng, ok_only=True)
+      for sig, what, case in oracle_roundtrip(p): ctx.hit(sig, what, case)
+      a, b, c = gen_path(rng, maxlen=3), gen_path(rng, maxlen=3), gen_path(rng, maxlen=3)
+      for sig, what, case in oracle_arith(a, b) + oracle_order(a, b, c): ctx.hit(sig, what, case)
+      for sig, what, case in oracle_set(gen_set_ops(rng)): ctx.hit(sig, what, case)
+      v = gen_value(rng, 3, 0.3)
+      for sig, what, case in oracle_value(v): ctx.hit(sig, what, case)
+      try:
+        for sig, what, case in oracle_value(to_sym(copy.deepcopy(v)), True): ctx.hit(sig, what, case)
+      except Exception:
+        pass
+      if len(ctx.hits) >= 3: break
+
+def replay(ctx, rp):
+  c = rp['case']
+  k = c.get('kind')
+  if k == 'roundtrip': hits = oracle_roundtrip(c['keys'])
+  elif k == 'arith': hits = oracle_arith(c['p'], c['q'])
+  elif k == 'order': hits = oracle_order(c['a'], c['b'], c['c'])
+  elif k == 'set': hits = oracle_set(c['ops'])
+  elif k == 'value':
+    v = dpv(c['value_tr'])
+    hits = oracle_value(to_sym(v) if c.get('sym') else v, bool(c.get('sym')))
+  else:
+    raise ValueError('unknown replay kind %r' % k)
+  for h in hits:
+    print('  still fails:', h[0], '--', h[1])
+  return not hits
